@@ -105,6 +105,19 @@ def runReq (cfg : ReqCfg) : List Bytes → ReqState rhymuriImpl → Bytes → Li
       | .complete => (joinAcc (s!"C,{o.consumed}" :: acc) ++ " | " ++ reqFields o.st, rs ++ o.reserves, some o.st)
       | .incomplete => runReq cfg ds o.st (buf.drop o.consumed) (s!"I,{o.consumed}" :: acc) (rs ++ o.reserves)
 
+/-- as `runReq`, with the limits the caller has set before each call (public fields may be changed between calls) -/
+def runReqV : List (ReqCfg × Bytes) → ReqState rhymuriImpl → Bytes → List String → List Reserve → String
+  | [], s, _, acc, rs => joinAcc acc ++ " | " ++ reqFields s ++ " #r=" ++ showReserves rs
+  | (cfg, d) :: ds, s, pending, acc, rs =>
+    let buf := pending ++ d
+    match Request.parse rhymuriImpl cfg s buf with
+    | .err c => joinAcc (s!"E:{cat c}" :: acc)
+    | .panic k => joinAcc (s!"P:{pk k}" :: acc)
+    | .ok o =>
+      match o.status with
+      | .complete => joinAcc (s!"C,{o.consumed}" :: acc) ++ " | " ++ reqFields o.st ++ " #r=" ++ showReserves (rs ++ o.reserves)
+      | .incomplete => runReqV ds o.st (buf.drop o.consumed) (s!"I,{o.consumed}" :: acc) (rs ++ o.reserves)
+
 def failStr : Fail → String
   | .err c => s!"E:{cat c}" | .panic k => s!"P:{pk k}" | .oof => "OOF"
 
@@ -218,6 +231,25 @@ def step (toks : List String) : String :=
     | some rl, some hl, some mx, some ds =>
       (reqOp { rl := rl, hl := hl, max := mx, ov := ov = "1", tree := ⟨tree = "1"⟩ } ds).1
     | _, _, _, _ => "bad-op"
+  | ["REQV", tree, ov, cfgs, ds] =>
+    let parseCfg (c : String) : Option ReqCfg :=
+      match c.splitOn "," with
+      | [rl, hl, mx] =>
+        match optNat rl, optNat hl, optNat mx with
+        | some rl, some hl, some mx => some { rl := rl, hl := hl, max := mx, ov := ov = "1", tree := ⟨tree = "1"⟩ }
+        | _, _, _ => none
+      | _ => none
+    match (cfgs.splitOn ";").mapM parseCfg, (ds.splitOn "|").mapM unhex with
+    | some cs, some ds => if cs.length = ds.length then runReqV (cs.zip ds) (Request.new rhymuriImpl) [] [] [] else "bad-op"
+    | _, _ => "bad-op"
+  | ["RESPPRE", tree, ov, hl, pre, ds] =>
+    -- a Response whose public `body` field the caller has filled before the first `parse`
+    match optLim none hl, unhex pre, (ds.splitOn "|").mapM unhex with
+    | some hl, some pre, some ds =>
+      let cfg : RespCfg := { hl := hl, ov := ov = "1", tree := ⟨tree = "1"⟩ }
+      let (b, rs, _) := runResp cfg ds { Response.new with body := pre } [] [] []
+      b ++ " #r=" ++ showReserves rs
+    | _, _, _ => "bad-op"
   | ["RESP", tree, ov, hl, ds] =>
     match optLim none hl, (ds.splitOn "|").mapM unhex with
     | some hl, some ds => (respOp { hl := hl, ov := ov = "1", tree := ⟨tree = "1"⟩ } ds).1
